@@ -256,6 +256,44 @@ def legal_moves(pos):
     return out
 
 
+def is_legal(pos, src, dst):
+    """Legality of one (src, dst) move; returns (legal, needs_promotion_choice)."""
+    b, me = pos["b"], pos["turn"]
+    p = b.get(src)
+    if p is None or p[0] != me:
+        return False, False
+    kind = p[1]
+    if dst in b and b[dst][0] == me:
+        return False, False
+    if kind == "K" and abs(dst[0] - src[0]) == 2 and dst[1] == src[1]:
+        return (src, dst, False) in legal_moves(pos), False
+    if kind == "N":
+        ok = dst in step(src, KNIGHT_OFFS)
+    elif kind == "K":
+        ok = dst in step(src, KING_OFFS)
+    elif kind == "R":
+        ok = dst in slide(src, ROOK_DIRS, b)
+    elif kind == "B":
+        ok = dst in slide(src, BISHOP_DIRS, b)
+    elif kind == "Q":
+        ok = dst in slide(src, ROOK_DIRS + BISHOP_DIRS, b)
+    else:
+        d = 1 if me == 0 else -1
+        ok = False
+        if dst == (src[0], src[1] + d) and dst not in b:
+            ok = True
+        elif dst == (src[0], src[1] + 2 * d) and src[1] == (1 if me == 0 else 6) and dst not in b and (src[0], src[1] + d) not in b:
+            ok = True
+        elif dst in pawn_attack_squares(src, white=(me == 0)) and ((dst in b and b[dst][0] != me) or dst == pos["ep"]):
+            ok = True
+    if not ok:
+        return False, False
+    nxt = apply_move(pos, src, dst)
+    if attacked(nxt["b"], king_square(nxt["b"], me), 1 - me):
+        return False, False
+    return True, kind == "P" and dst[1] in (0, 7)
+
+
 def perft(pos, depth):
     if depth == 0:
         return 1
